@@ -1253,6 +1253,14 @@ int32 psPkcs12ParseMem(psPool_t *pool, psX509Cert_t **cert, psPubKey_t *privKey,
             rc = PS_PARSE_FAIL;
             goto ERR_PARSE;
         }
+        if (tmplen != SHA1_HASH_SIZE)
+        {
+            /* Only SHA-1 MACs are supported (see below) and digest[] is
+               sized for them */
+            psTraceCrypto("Unsupported digest length in PKCS#12 MacData\n");
+            rc = (oi == OID_SHA1_ALG) ? PS_PARSE_FAIL : PS_UNSUPPORTED_FAIL;
+            goto ERR_PARSE;
+        }
         Memcpy(digest, p, tmplen);
         p += tmplen;
         if ((*p++ != ASN_OCTET_STRING) ||
